@@ -7,7 +7,7 @@
    groups not listed there are validated by the predicate sweep only — see DESIGN.md). *)
 From Coq Require Import Reals List Lra.
 From Manif Require Import Scalar Mat Group RInst Generic LieSpec SO2 SE2 SO3 SE3 SE23 SGal3 Rn
-  SE2Proofs SO3Proofs SE23Proofs RnProofs Adj_SO2 Adj_SE2 Adj_SO3 Adj_SE3 Adj_SE23 Adj_SGal3 Adj_Rn JacInv_SO3 JacInv_SE2 AdjExp_SO3
+  SE2Proofs SO3Proofs SE23Proofs RnProofs Adj_SO2 Adj_SE2 Adj_SO3 Adj_SE3 Adj_SE23 Adj_SGal3 Adj_Rn JacInv_SO3 JacInv_SE2 AdjExp_SO3 JacInv_SE3 JacInv_SE23
   Bundle BundleLaws BundleInst BundleCore.
 Import ListNotations.
 Local Open Scope R_scope.
@@ -62,6 +62,26 @@ Theorem C06_Adj_exp_SO3 eps x y z : 0 < eps -> eps < x * x + y * y + z * z -> si
   so3_adj RS (so3_exp RS eps [x; y; z]) = @mmul RS (so3_ljac RS eps [x; y; z]) (so3_rjacinv RS eps [x; y; z]).
 Proof. intros H. exact (so3_adj_exp eps H x y z). Qed.
 Print Assumptions C06_Adj_exp_SO3.
+
+(* SE3 and SE_2(3), generic branch, sin theta <> 0: the 6x6 / 9x9 inverse Jacobians the code assembles from Di and
+   -Di Q Di blocks are the two-sided matrix inverses (block algebra over D Di = Di D = I, any Q = fillQ) *)
+Theorem C06_JacInv_SE3_left eps a b c x y z : 0 < eps -> eps < x * x + y * y + z * z -> sin (sqrt (x * x + y * y + z * z)) <> 0 ->
+  @mmul RS (se3_ljac RS eps [a; b; c; x; y; z]) (se3_ljacinv RS eps [a; b; c; x; y; z]) = @mid RS 6 /\
+  @mmul RS (se3_ljacinv RS eps [a; b; c; x; y; z]) (se3_ljac RS eps [a; b; c; x; y; z]) = @mid RS 6.
+Proof. intros H. exact (se3_ljac_ljacinv eps H a b c x y z). Qed.
+Theorem C06_JacInv_SE3_right eps a b c x y z : 0 < eps -> eps < x * x + y * y + z * z -> sin (sqrt (x * x + y * y + z * z)) <> 0 ->
+  @mmul RS (se3_rjac RS eps [a; b; c; x; y; z]) (se3_rjacinv RS eps [a; b; c; x; y; z]) = @mid RS 6 /\
+  @mmul RS (se3_rjacinv RS eps [a; b; c; x; y; z]) (se3_rjac RS eps [a; b; c; x; y; z]) = @mid RS 6.
+Proof. intros H. exact (se3_rjac_rjacinv eps H a b c x y z). Qed.
+Theorem C06_JacInv_SE23_left eps a b c x y z d e f : 0 < eps -> eps < x * x + y * y + z * z -> sin (sqrt (x * x + y * y + z * z)) <> 0 ->
+  @mmul RS (se23_ljac RS eps [a; b; c; x; y; z; d; e; f]) (se23_ljacinv RS eps [a; b; c; x; y; z; d; e; f]) = @mid RS 9 /\
+  @mmul RS (se23_ljacinv RS eps [a; b; c; x; y; z; d; e; f]) (se23_ljac RS eps [a; b; c; x; y; z; d; e; f]) = @mid RS 9.
+Proof. intros H. exact (se23_ljac_ljacinv eps H a b c x y z d e f). Qed.
+Theorem C06_JacInv_SE23_right eps a b c x y z d e f : 0 < eps -> eps < x * x + y * y + z * z -> sin (sqrt (x * x + y * y + z * z)) <> 0 ->
+  @mmul RS (se23_rjac RS eps [a; b; c; x; y; z; d; e; f]) (se23_rjacinv RS eps [a; b; c; x; y; z; d; e; f]) = @mid RS 9 /\
+  @mmul RS (se23_rjacinv RS eps [a; b; c; x; y; z; d; e; f]) (se23_rjac RS eps [a; b; c; x; y; z; d; e; f]) = @mid RS 9.
+Proof. intros H. exact (se23_rjac_rjacinv eps H a b c x y z d e f). Qed.
+Print Assumptions C06_JacInv_SE23_right.
 
 (* Bundles: for ANY list of element groups (packs: BundleCore.v) the Bundle's adj() — the block-diagonal matrix of the
    elements' adjoints, as Bundle_base.h writes it — is a homomorphism: Adj(X*Y) = Adj(X) Adj(Y), Adj(Identity) = I, and
